@@ -1,4 +1,5 @@
 import QuantemModel.Lemmas.Dataset
+import QuantemModel.Lemmas.DatasetCrop
 /-!
 C03 — Dataset containers stay coherent under any history of operations.
 Theorems about the state machine `Model/Dataset.lean` (array + calibration + class under
@@ -244,15 +245,12 @@ theorem getitem_axes {shape : List Nat} {ix : List Item} {p : Plan} (h : plan sh
 
 /-! ### exact error guards -/
 
-/- Full statement (not proved): `crop` without `axes` raises exactly when `crop_widths` does
-not have one entry per axis:
-    (∃ e, crop d ws .all ip = .error e) ↔ ws.length ≠ d.ndim
-The direction "right length → no error" needs that `plan` never fails on all-slice index
-expressions; it is exercised by the correspondence run only. -/
-/-- `crop` without `axes` raises ValueError when `crop_widths` does not have one entry per axis. -/
-theorem crop_all_error_partial {d : Ds} (ws : List (Int × Int)) (ip : Bool)
-    (hl : ws.length ≠ d.ndim) : crop d ws .all ip = .error .value := by
-  unfold crop cropArgs; simp [hl]
+/-- `crop` without `axes` raises exactly when `crop_widths` does not have one entry per axis
+(ValueError): with the right number of entries the slices `slice(before, after or None)` are
+always accepted, whatever their values. -/
+theorem crop_all_error_iff {d : Ds} (ws : List (Int × Int)) (ip : Bool) (hi : Inv d) :
+    (∃ e, crop d ws .all ip = .error e) ↔ ws.length ≠ d.ndim :=
+  crop_all_error_iff' ws ip hi
 
 /-- `bin` raises ValueError for a non-positive factor, TypeError for a non-integral one,
 whatever the other arguments (valid reducer, valid axes). -/
